@@ -115,6 +115,43 @@ def subindex_twins(sr, rng):
     return [("subindex-A", f1), ("subindex-B", f2), ("subindex-C", f3)]
 
 
+def prefused_extent_family(sr, rng):
+    """Arrays whose FUSED leg has the same outer charge table, direction and sub-indices but a
+    different sub-sector table behind it (a different single sector missing before the fuse)."""
+    from . import gen
+
+    sym = rng.choice(["Z2", "Z2", "U1", "Z4", "Z2Z2"])
+    pool = gen.POOL[sym]
+    cs = rng.sample(pool, 2)
+    d = rng.randint(1, 2)
+    idx = [sr.BlockIndex({c: d for c in cs}, dual=rng.random() < 0.5) for _ in range(4)]
+    ch = gen.pick_charge(rng, sym, idx)
+    secs = gen.all_sectors(sym, idx, ch)
+    ferm = rng.random() < 0.3
+    out = []
+    seedv = rng.getrandbits(40)
+    drops = rng.sample(range(len(secs)), min(4, len(secs)))
+    for k in drops:
+        r2 = random.Random(seedv)
+        vals = gen.Values(r2, "int")
+        blocks = {s_: vals(tuple(ix.chargemap[c] for ix, c in zip(idx, s_))) for j, s_ in enumerate(secs) if j != k}
+        if not blocks:
+            continue
+        cls, extra, _ = gen.pick_class(sr, r2, sym, ferm, kind="generic_str" if sym == "Z4" else "static")
+        kw = dict(indices=idx, charge=ch, blocks=blocks, **extra)
+        from . import refsym as R
+
+        if ferm and R.par(sym, ch):
+            kw["oddpos"] = 13
+        x = cls(**kw)
+        g = rng.choice([(0, 1), (1, 2), (2, 3), (0, 2)])
+        try:
+            out.append((f"prefused-missing-{k}", x.fuse(g)))
+        except Exception:
+            pass
+    return out
+
+
 def make_ops(sr, seed, n):
     """-> list of (description, thunk). Operands are shared between ops."""
     from . import gen
@@ -125,6 +162,7 @@ def make_ops(sr, seed, n):
     while len(arrays) < max(6, n // 6):
         arrays += family(sr, rng)
     arrays += subindex_twins(sr, rng)
+    arrays += prefused_extent_family(sr, rng)
     ops = []
     for k in range(n):
         tag, x = rng.choice(arrays)
